@@ -10,6 +10,7 @@ package c15
 import (
 	"encoding/json"
 	"fmt"
+	"sync"
 	"sync/atomic"
 
 	"github.com/Breeze0806/gobinlog/replication"
@@ -145,6 +146,29 @@ func countClass(n int) string {
 	return "count<251"
 }
 
+// otherTableMap decodes a table map of n VARCHAR(65535) columns.
+var otherCache sync.Map // key -> event bytes
+
+func otherTableMap(flavor string, cfg ref.Cfg, f replication.BinlogFormat, n int) {
+	key := fmt.Sprintf("%d|%v|%v|%d|%d", cfg.Checksum, cfg.TableID6, cfg.PadOnes, cfg.HeaderLen, n)
+	var evb []byte
+	if v, ok := otherCache.Load(key); ok {
+		evb = v.([]byte)
+	} else {
+		t := ref.Table{ID: 999, DB: "o", Name: "o"}
+		for i := 0; i < n; i++ {
+			t.Cols = append(t.Cols, ref.ColVarchar("x", 65535))
+		}
+		evb = cfg.Event(ref.Header{Timestamp: 1, Type: ref.EvTableMap, ServerID: cfg.ServerID}, cfg.BodyTableMap(t), 4, false)
+		otherCache.Store(key, evb)
+	}
+	ev := newEvent(flavor, evb)
+	ev, _, err := ev.StripChecksum(f)
+	if err == nil {
+		ev.TableMap(f)
+	}
+}
+
 // checkTable is the oracle of the decode half.
 func checkTable(flavor string, cfg ref.Cfg, f replication.BinlogFormat, t *ref.Table) (key, why string) {
 	body := cfg.BodyTableMap(*t)
@@ -173,6 +197,12 @@ func checkTable(flavor string, cfg ref.Cfg, f replication.BinlogFormat, t *ref.T
 		id = ev.TableID(f)
 		stage = "TableMap"
 		tm, err = ev.TableMap(f)
+		if err == nil && tm != nil {
+			// decode an unrelated table map (same column count, other metadata)
+			// before the result is read: what TableMap returned must be private
+			// to its call (no package-level scratch for the metadata words)
+			chk.Catch(func() { otherTableMap(flavor, cfg, f, n) })
+		}
 	})
 	widthKey := "4byte"
 	if cfg.TableID6 {
